@@ -121,6 +121,30 @@ def run(prop, tier, seed, replay=None):
                     k = rnd.randint(1, 3)
                     corp_args.append(('C-%06d' % len(corp_args), trees[i:i + k], fmt, list(o), sep, None, seed + i))
                     i += k
+            # seeded random corpora with the alphabets the quantifier names (look-alikes of node references,
+            # XML-special, non-ASCII, tab-stop lengths), all formats and option subsets
+            pool = ['w', 'w', 'a&b', '<t>', '"q"', "it's", u'Übermaß', u'日本', 'x' * 7, 'y' * 8, 'z' * 15, 'v' * 16,
+                    '#1', '#42', '#4711', '#50', '--', '%s', '-LRB-', '[', 'NP', '500']
+            for k in range(250 if tier == 'quick' else 4000):
+                fmt = rnd.choice(list(ROPTS))
+                o = [x for x in ROPTS[fmt] if rnd.random() < 0.3]
+                Ts = []
+                for _ in range(rnd.randint(1, 3)):
+                    T = treeio.random_tree(rnd, nmax=7 if tier == 'quick' else 10, maxcons=5, labels=('S', 'NP-SB', 'VP-1', 'X#Y=2'),
+                                           edges=('HD', '--', 'OA'),
+                                           tags=('NN', '$,', 'VVFIN-X') if fmt in ('brackets', 'discobrackets') else ('NN', '$(', 'VVFIN-X'),
+                                           tokedges=('--', 'HD'),
+                                           disc=0.0 if fmt == 'brackets' else 0.5,
+                                           words=lambda r_, p_: (lambda x: x + str(p_) if x == 'w' else x)(r_.choice(pool)))
+                    for x in T['nodes']:
+                        a = x['a']
+                        for fld in ('lab', 'edge', 'lemma', 'morph', 'word'):
+                            a[fld] = ch(a[fld]) if a[fld] != '~' else ['~~']
+                        if not x['tok']:
+                            a['lemma'], a['morph'] = ch('--'), ch('--')
+                    Ts.append(T)
+                corp_args.append(('Q-%05d' % k, Ts, fmt, o, rnd.choice(['-', '-', '#']) if 'gf_split' in o else '-',
+                                  None, seed + k, 'random'))
             rep.exhaustive = True
             cases = core.pmap(fam_io.record_tokens_case, tok_args, chunksize=256) + \
                 core.pmap(fam_io.record_corpus_case, corp_args, chunksize=32)
